@@ -792,8 +792,14 @@ fn legitimate_error(view: &View, font: &FontRef, req: &Req, err: &str) -> Option
         prev = Some(*c);
     }
     let need = 16 + 12 * groups;
-    if need > src_len * 256 {
-        Some(format!("format-12 subtable alone needs {} bytes > 256 x source cmap ({} bytes): klippa/src/lib.rs try_subset size limit", need, src_len))
+    // try_subset starts from estimate_subset_table_size (>= 8192) and doubles
+    // (2n + 16) while the result stays <= 256 x source length
+    let mut reachable = 8192 + src_len;
+    while reachable * 2 + 16 <= src_len * 256 {
+        reachable = reachable * 2 + 16;
+    }
+    if need > reachable {
+        Some(format!("format-12 subtable alone needs {} bytes > {} bytes, the largest buffer klippa/src/lib.rs try_subset grows to for a {}-byte source cmap (256 x limit)", need, reachable, src_len))
     } else {
         None
     }
@@ -1261,7 +1267,7 @@ fn random_request(view: &View, rng: &mut Rng) -> Req {
             shape = "chars:half";
             // capped: a scattered request over a million code points only
             // measures klippa's output-size limit (see legitimate_error)
-            chars = pick_some(rng, (n / 2).min(100_000));
+            chars = pick_some(rng, (n / 2).min(30_000));
         }
         5 => {
             shape = "chars:all-1";
